@@ -7,6 +7,10 @@ import boot  # noqa: F401
 from lib import coop
 
 
+class SendRefused(Exception):
+    """the session refuses a payload (marked REFUSEME) before it takes a message number for it: a send that fails BELOW the layers' locks"""
+
+
 class CountingTransport(object):
     def __init__(self, stream, hooks):
         self._stream = stream
@@ -15,6 +19,8 @@ class CountingTransport(object):
 
     def send(self, data):
         coop.point()
+        if b"REFUSEME" in bytes(data):
+            raise SendRefused()
         n = self.counter
         self.counter += 1
         self.hooks("enc", n)
